@@ -6,10 +6,14 @@
 package main
 
 import (
+	"crypto/sha1"
 	"fmt"
 	"io"
 	"os"
 	"path/filepath"
+	"runtime"
+	"runtime/debug"
+	"runtime/pprof"
 	"sort"
 	"strings"
 	"sync"
@@ -68,6 +72,29 @@ type runner struct {
 	corpusFs afero.Fs
 	coqToks  int
 	coqCap   int
+	fileToks int
+	planned  int
+}
+
+// planCoq decides up front (deterministically, in job order) whether a subject's token streams go to Coq
+func (r *runner) planCoq(text string) bool {
+	est := 2 * (len(text)/3 + 10)
+	if r.planned+est > r.coqCap+r.coqCap/4 {
+		return false
+	}
+	r.planned += est
+	return true
+}
+
+func smallRef(rp replay) interface{} {
+	if len(rp.Text) <= 1500 {
+		return rp
+	}
+	var ops []string
+	for _, st := range rp.Steps {
+		ops = append(ops, st.String())
+	}
+	return map[string]interface{}{"name": rp.Name, "text_bytes": len(rp.Text), "steps": ops}
 }
 
 func (r *runner) merge(s *sink) {
@@ -75,7 +102,8 @@ func (r *runner) merge(s *sink) {
 		r.c.Hist(h)
 	}
 	for _, k := range s.counts {
-		r.c.Count(k.key, k.nt)
+		h := sha1.Sum([]byte(k.key))
+		r.c.Count(string(h[:12]), k.nt)
 	}
 	for _, f := range s.fails {
 		r.c.Fail(f.Key, f.What, f.Replay)
@@ -85,9 +113,15 @@ func (r *runner) merge(s *sink) {
 			r.c.Hist("coq-case-dropped-over-token-cap")
 			continue
 		}
-		r.cs.Add(q.term, q.rp)
+		if r.fileToks > 0 && r.fileToks+q.ntoks > 25000 {
+			r.cs.Close() // one case file = at most ~25 000 tokens (a few seconds and < 1 GB for coqc)
+			r.fileToks = 0
+		}
+		r.cs.Add(q.term, smallRef(q.rp))
 		r.coqToks += q.ntoks
+		r.fileToks += q.ntoks
 	}
+	*s = sink{}
 }
 
 // ---------- Gallina printing of one lexer run ----------
@@ -326,6 +360,8 @@ type job struct {
 
 func (r *runner) subject(j *job) {
 	s, c, rng := j.s, &j.out, j.rng
+	noteActive(j, "original")
+	defer active.Delete(j)
 	toks, ok := lexAll(s.text)
 	if !ok {
 		c.Hist("lexer-did-not-finish")
@@ -349,6 +385,7 @@ func (r *runner) subject(j *job) {
 			c.Hist("script-identity")
 			return
 		}
+		noteActive(j, fmt.Sprintf("variant of %d bytes after %v", len(vt), steps))
 		for _, st := range steps {
 			c.Hist("step:" + st.Op)
 		}
@@ -426,25 +463,35 @@ func (r *runner) subject(j *job) {
 }
 
 func (r *runner) runJobs(jobs []*job) {
-	workers := 12
-	var wg sync.WaitGroup
-	ch := make(chan *job)
+	// Every parse builds its own ATN and DFA tables (NewThreadSafeSyslLexer / Parser), tens of MB of
+	// short-lived data per compile: memory is bounded by the number of workers, and finished jobs are
+	// merged (in job order, so the run is deterministic) and released as soon as all earlier ones are done.
+	workers := 8
+	ch := make(chan int)
+	done := make(chan int, len(jobs))
 	for w := 0; w < workers; w++ {
-		wg.Add(1)
 		go func() {
-			defer wg.Done()
-			for j := range ch {
-				r.subject(j)
+			for i := range ch {
+				r.subject(jobs[i])
+				done <- i
 			}
 		}()
 	}
-	for _, j := range jobs {
-		ch <- j
-	}
-	close(ch)
-	wg.Wait()
-	for _, j := range jobs {
-		r.merge(&j.out)
+	go func() {
+		for i := range jobs {
+			ch <- i
+		}
+		close(ch)
+	}()
+	finished := make([]bool, len(jobs))
+	next := 0
+	for n := 0; n < len(jobs); n++ {
+		finished[<-done] = true
+		for next < len(jobs) && finished[next] {
+			r.merge(&jobs[next].out)
+			jobs[next] = nil
+			next++
+		}
 	}
 }
 
@@ -541,12 +588,76 @@ func loadCorpus(repo string) ([]subject, afero.Fs) {
 	return subs, afero.NewReadOnlyFs(fs)
 }
 
+func memNote(c *common.Ctx, phase string) {
+	var m runtime.MemStats
+	runtime.ReadMemStats(&m)
+	c.Res.Extra["heap_mb_after_"+phase] = int(m.HeapAlloc >> 20)
+	c.Res.Extra["sys_mb_after_"+phase] = int(m.Sys >> 20)
+	if p := os.Getenv("C03_HEAPPROF"); p != "" {
+		if f, err := os.Create(p + "." + phase); err == nil {
+			pprof.WriteHeapProfile(f)
+			f.Close()
+		}
+	}
+}
+
+// watchdog: this process must never endanger the (shared) machine - stop hard when memory runs away
+var watchdogOut = os.Stdout
+var watchdogDir = "."
+
+// what every worker is doing right now (for the watchdog's report)
+var active sync.Map // *job -> activity
+
+type activity struct {
+	name  string
+	since time.Time
+	what  string
+}
+
+func noteActive(j *job, what string) { active.Store(j, activity{j.s.name, time.Now(), what}) }
+
+func activeReport() string {
+	var sb strings.Builder
+	active.Range(func(_, v interface{}) bool {
+		a := v.(activity)
+		fmt.Fprintf(&sb, "  %s: %s for %.0fs\n", a.name, a.what, time.Since(a.since).Seconds())
+		return true
+	})
+	return sb.String()
+}
+
+func watchdog(limitMB uint64) {
+	go func() {
+		for {
+			time.Sleep(5 * time.Second)
+			var m runtime.MemStats
+			runtime.ReadMemStats(&m)
+			if m.Sys>>20 > limitMB {
+				if p := os.Getenv("C03_HEAPPROF"); p != "" {
+					if f, err := os.Create(p + ".watchdog"); err == nil {
+						pprof.WriteHeapProfile(f)
+						f.Close()
+					}
+				}
+				os.WriteFile(filepath.Join(watchdogDir, "watchdog.txt"), []byte(activeReport()), 0o644)
+				fmt.Fprintf(watchdogOut, "c03: memory watchdog: %d MB obtained from the system (limit %d MB), giving up\n", m.Sys>>20, limitMB)
+				os.Exit(4)
+			}
+		}
+	}()
+}
+
 func main() {
 	c := common.Setup("C03")
+	debug.SetGCPercent(50)
+	debug.SetMemoryLimit(2500 << 20)
+	watchdog(4000)
 	defer c.Finish()
 	// the parser's diagnostic listeners print to stdout/stderr
 	devnull, _ := os.OpenFile(os.DevNull, os.O_WRONLY, 0)
 	realOut := os.Stdout
+	watchdogOut = realOut
+	watchdogDir = c.Out
 	os.Stdout, os.Stderr = devnull, devnull
 	logrus.SetOutput(io.Discard)
 
@@ -562,9 +673,9 @@ Notation T := true. Notation F := false.`
 	footer := `Definition M := Eval vm_compute in mismatches c03_ok cases. Print M.`
 	r := &runner{c: c, coqCap: 160000}
 	if c.Thorough() {
-		r.coqCap = 4000000
+		r.coqCap = 1200000
 	}
-	r.cs = c.NewCases("C03", header, "c03_case", footer, 40)
+	r.cs = c.NewCases("C03", header, "c03_case", footer, 1500)
 	defer func() {
 		r.cs.Close()
 		c.Res.Extra["tokens_compared_in_coq"] = r.coqToks
@@ -607,10 +718,55 @@ Notation T := true. Notation F := false.`
 
 	if os.Getenv("C03_BENCH") != "" {
 		t0 := time.Now()
-		for i := 0; i < 100; i++ {
-			compileText("App:\n    Ep:\n        do it\n")
+		b, _ := os.ReadFile(filepath.Join(repo, os.Getenv("C03_BENCH")))
+		text := "App:\n    Ep:\n        do it\n"
+		if len(b) > 0 {
+			text = string(b)
 		}
-		fmt.Fprintf(realOut, "100 small compiles: %v\n", time.Since(t0))
+		if os.Getenv("C03_BENCH") == "corpus" {
+			subs, cfs := loadCorpus(repo)
+			r.corpusFs = cfs
+			for round := 0; round < 2; round++ {
+				for i, s := range subs {
+					r.compileSubject(s, s.text+"\n# x\n")
+					if (i+1)%106 == 0 {
+						runtime.GC()
+						var m runtime.MemStats
+						runtime.ReadMemStats(&m)
+						fmt.Fprintf(realOut, "round %d, %d corpus compiles: %v, live heap %d MB, sys %d MB, goroutines %d\n", round, i+1, time.Since(t0), m.HeapAlloc>>20, m.Sys>>20, runtime.NumGoroutine())
+					}
+				}
+			}
+			memNote(c, "benchcorpus")
+			return
+		}
+		if os.Getenv("C03_BENCH") == "gen" {
+			g := &gen{r: c.Rng}
+			for i := 1; i <= 1500; i++ {
+				o := renderOpts{hostile: c.Rng.Chance(1, 4), sameWidth: c.Rng.Chance(1, 3), blanks: c.Rng.Chance(1, 3), trailNL: !c.Rng.Chance(1, 5)}
+				text := render(c.Rng, g.spec(), o)
+				compileText(text)
+				lexAll(text)
+				if i%250 == 0 {
+					runtime.GC()
+					var m runtime.MemStats
+					runtime.ReadMemStats(&m)
+					fmt.Fprintf(realOut, "%d generated compiles: %v, live heap %d MB, sys %d MB\n", i, time.Since(t0), m.HeapAlloc>>20, m.Sys>>20)
+					memNote(c, fmt.Sprint("bench", i))
+				}
+			}
+			return
+		}
+		for round := 0; round < 5; round++ {
+			for i := 0; i < 40; i++ {
+				compileText(text)
+				lexAll(text)
+			}
+			runtime.GC()
+			var m runtime.MemStats
+			runtime.ReadMemStats(&m)
+			fmt.Fprintf(realOut, "%d compiles of %d bytes: %v, live heap %d MB, sys %d MB\n", 40*(round+1), len(text), time.Since(t0), m.HeapAlloc>>20, m.Sys>>20)
+		}
 		return
 	}
 	subs, cfs := loadCorpus(repo)
@@ -630,9 +786,9 @@ Notation T := true. Notation F := false.`
 	c.Res.Extra["calc_probe_max_len"] = L
 
 	// 2. generated specifications (first: they are small, so their token-level cases fit under the cap)
-	ng := 200
+	ng := 160
 	if c.Thorough() {
-		ng = 4000
+		ng = 1200
 	}
 	if c.Search {
 		ng *= 3
@@ -649,31 +805,36 @@ Notation T := true. Notation F := false.`
 		}
 		nvg := 2
 		if c.Thorough() {
-			nvg = 4
+			nvg = 3
 		}
 		jobs = append(jobs, &job{s: subject{name: fmt.Sprintf("generated-%d", i), text: text}, rng: c.Rng.Fork(), nVariants: nvg,
-			coqOrig: true, coqVar: true, exhaustive: i%25 == 0 && len(text) < 1000})
+			coqOrig: true, coqVar: true, exhaustive: i%40 == 0 && len(text) < 1000})
 		if i < 3 {
 			c.Sample(map[string]interface{}{"generated_text": text})
 		}
 	}
 	r.runJobs(jobs)
 	c.Res.Extra["t_generated_s"] = time.Since(t0).Seconds()
+	memNote(c, "generated")
 	t0 = time.Now()
 
 	// 3. corpus
 	nv, coqEvery := 1, 5
 	if c.Thorough() {
-		nv, coqEvery = 10, 1
+		nv, coqEvery = 4, 1
 	}
 	if c.Search {
 		nv *= 3
 	}
 	jobs = nil
 	for i, s := range subs {
-		coq := (i+int(c.Seed))%coqEvery == 0
-		jobs = append(jobs, &job{s: s, rng: c.Rng.Fork(), nVariants: nv, coqOrig: coq, coqVar: coq, exhaustive: c.Thorough() && len(s.text) < 1500})
+		if !c.Thorough() && !c.Search && (i+int(c.Seed))%2 != 0 {
+			continue // quick: every other corpus file, alternating with the seed
+		}
+		coq := (i+int(c.Seed))%coqEvery == 0 && r.planCoq(s.text)
+		jobs = append(jobs, &job{s: s, rng: c.Rng.Fork(), nVariants: nv, coqOrig: coq, coqVar: coq, exhaustive: c.Thorough() && len(s.text) < 1000})
 	}
 	r.runJobs(jobs)
 	c.Res.Extra["t_corpus_s"] = time.Since(t0).Seconds()
+	memNote(c, "corpus")
 }
